@@ -31,6 +31,7 @@ safe Version [C03]
 module store
 props C03 C20
 use common core
+use common vote
 dialect neovm
 
 // C20: audit results. A result is stored under i2b(epoch) ++ cid ++ sha256(key)[0:24] (the header fields are cut out of
